@@ -7,6 +7,32 @@ HERE = os.path.dirname(os.path.dirname(os.path.abspath(__file__)))
 
 # property -> (technique, level text, level note, design ref)
 CLAIMED = {
+    "C07": (
+        "decision-table extraction (interval types, value comparison, scale applicability, "
+        "category factory, limit swap), def-use expansion of converter guards against validity "
+        "predicates, and rational-normal-form comparison of the closed forms (linear segment, "
+        "Horner scheme by symbolic unrolling, interpolation formula)",
+        "Decides the structural part of every conversion: the OPEN/CLOSED/INFINITE tables, the "
+        "sign comparison per value kind, validity <=> convertibility per category and "
+        "direction, the SCALE-LINEAR invertibility conditions, rounding to nearest by the role "
+        "type, category exhaustiveness, slope-dependent physical limits and the algebraic form "
+        "of the linear, rational and interpolated functions. All are necessary conditions of the "
+        "property for every compu method and value.",
+        "Not decided: numerical equality with exact rational arithmetic on concrete values "
+        "(floating point). Trusted: exemption table VALIDITY_EXEMPT (description-level raises).",
+        "DESIGN.md section 3, C07"),
+    "C03": (
+        "symbolic composition of the linear forward/inverse formulas (rational normal form), "
+        "direction-wiring via def-use expansion of converter guards, rounding rule, "
+        "dominance/control-dependence check of the DataObjectProperty validity gates",
+        "Decides the mechanisms the decode-then-encode identity rests on: the linear inverse "
+        "really is the algebraic inverse, every direction of every compu category uses its own "
+        "role's data, integer results are rounded not truncated, and DataObjectProperty only "
+        "converts values accepted by the validity gate of the same direction and encodes exactly "
+        "the converted value. Narrow by design: it is the wiring, not the identity on values.",
+        "Not decided: the identity itself on any concrete PDU, injectivity, RAT-FUNC inverses "
+        "given by independent coefficients.",
+        "DESIGN.md section 3, C03"),
     "C15": (
         "structural rules over the comparam merge and lookup (override key, merge order, "
         "recursion through the parents' computed view, protocol filter and preference), "
